@@ -11,7 +11,7 @@ package routing
 //@ guarded Table.mu: routes
 
 //@ func (*Route).Clone
-//@ prop C08 C10
+//@ prop C08 C10 C13 C15
 //@ check bounds alloc
 //@ requires r != nil && r.Network != nil
 //@ ensures result != nil && result != r && !old(allocated(result))
@@ -33,16 +33,17 @@ package routing
 //@ ensures forall a in 0..len(t.routes[key]): forall b in a..len(t.routes[key]): t.routes[key][a].Metric <= t.routes[key][b].Metric
 
 //@ func (*Table).AddRoute
-//@ prop C08 C10
+//@ prop C08 C10 C13 C15
 //@ check lockset bounds
 //@ modifies *
 //@ after call String let k = $ret
 //@ loop 0 invariant -1 <= rangeindex && rangeindex < len(route.Path) && forall j in 0..rangeindex+1: route.Path[j] != t.localID
 //@ loop 1 invariant -1 <= rangeindex && rangeindex < len(existing) && forall j in 0..rangeindex+1: existing[j].OriginAgent != route.OriginAgent
 //@ ensures[C10] route != nil && route.Network != nil && (exists j in 0..len(route.Path): old(route.Path[j]) == t.localID) ==> !result
+//@ ensures result ==> route != nil && route.Network != nil
 //@ ensures[C10] route != nil && route.Network != nil && (exists j in 0..len(route.Path): old(route.Path[j]) == t.localID) ==> t.routes == old(t.routes) && len(t.routes[netKey(route.Network)]) == old(len(t.routes[netKey(route.Network)]))
 //@ ensures[C08,C10] result ==> forall a in 0..len(t.routes[k]): forall b in a..len(t.routes[k]): t.routes[k][a].Metric <= t.routes[k][b].Metric
-//@ ensures[C10] result ==> exists j in 0..len(t.routes[k]): t.routes[k][j].OriginAgent == route.OriginAgent && t.routes[k][j].Metric == route.Metric && t.routes[k][j].NextHop == route.NextHop && t.routes[k][j].Sequence == route.Sequence
+//@ ensures[C10,C13,C15] result ==> exists j in 0..len(t.routes[k]): t.routes[k][j].OriginAgent == route.OriginAgent && t.routes[k][j].Metric == route.Metric && t.routes[k][j].NextHop == route.NextHop && t.routes[k][j].Sequence == route.Sequence && len(t.routes[k][j].Path) == len(route.Path)
 //@ at[C10] call (*Route).Clone#0 assert r.OriginAgent == route.OriginAgent && existing[i] == r && (forall j in 0..i: existing[j].OriginAgent != route.OriginAgent)
 //@ at[C10] call (*Route).Clone#0 assert route.Sequence > r.Sequence || (route.Sequence == r.Sequence && route.Metric < r.Metric)
 //@ at[C10] call (*Route).Clone#1 assert forall j in 0..len(existing): existing[j].OriginAgent != route.OriginAgent
@@ -85,28 +86,31 @@ package routing
 //@ guarded AgentTable.mu: routes
 
 //@ func (*DomainRoute).Clone
-//@ prop C09 C10
+//@ prop C09 C10 C13 C15
 //@ check bounds alloc
 //@ requires r != nil
 //@ ensures result != nil && result != r && !old(allocated(result))
 //@ ensures result.Pattern == r.Pattern && result.IsWildcard == r.IsWildcard && result.BaseDomain == r.BaseDomain
 //@ ensures result.NextHop == r.NextHop && result.OriginAgent == r.OriginAgent && result.Metric == r.Metric && result.Sequence == r.Sequence
+//@ ensures len(result.Path) == len(r.Path) && forall i in 0..len(r.Path): result.Path[i] == r.Path[i]
 
 //@ func (*ForwardRoute).Clone
-//@ prop C09 C10
+//@ prop C09 C10 C13 C15
 //@ check bounds alloc
 //@ requires r != nil
 //@ ensures result != nil && result != r && !old(allocated(result))
 //@ ensures result.Key == r.Key && result.Target == r.Target
 //@ ensures result.NextHop == r.NextHop && result.OriginAgent == r.OriginAgent && result.Metric == r.Metric && result.Sequence == r.Sequence
+//@ ensures len(result.Path) == len(r.Path) && forall i in 0..len(r.Path): result.Path[i] == r.Path[i]
 
 //@ func (*AgentRoute).Clone
-//@ prop C09 C10
+//@ prop C09 C10 C13 C15
 //@ check bounds alloc
 //@ requires r != nil
 //@ ensures result != nil && result != r && !old(allocated(result))
 //@ ensures result.AgentID == r.AgentID
 //@ ensures result.NextHop == r.NextHop && result.OriginAgent == r.OriginAgent && result.Metric == r.Metric && result.Sequence == r.Sequence
+//@ ensures len(result.Path) == len(r.Path) && forall i in 0..len(r.Path): result.Path[i] == r.Path[i]
 
 //@ func (*DomainTable).sortRoutesInMap
 //@ prop C09 C10
@@ -138,7 +142,7 @@ package routing
 //@ ensures routeMap == ite(isWildcard, t.wildcardBase, t.exactRoutes)
 
 //@ func (*DomainTable).AddRoute
-//@ prop C09 C10
+//@ prop C09 C10 C13 C15
 //@ check lockset bounds
 //@ modifies *
 //@ loop 0 invariant -1 <= rangeindex && rangeindex < len(route.Path) && forall j in 0..rangeindex+1: route.Path[j] != t.localID
@@ -147,12 +151,12 @@ package routing
 //@ after call sortRoutesInMap let k = $2
 //@ loop 1 invariant -1 <= rangeindex && rangeindex < len(targetMap[key])
 //@ ensures[C09,C10] result ==> forall a in 0..len(tm[k]): forall b in a..len(tm[k]): tm[k][a].Metric <= tm[k][b].Metric
-//@ ensures[C10] result ==> exists j in 0..len(tm[k]): tm[k][j].OriginAgent == route.OriginAgent && tm[k][j].Metric == route.Metric && tm[k][j].NextHop == route.NextHop && tm[k][j].Sequence == route.Sequence
+//@ ensures[C10,C13,C15] result ==> exists j in 0..len(tm[k]): tm[k][j].OriginAgent == route.OriginAgent && tm[k][j].Metric == route.Metric && tm[k][j].NextHop == route.NextHop && tm[k][j].Sequence == route.Sequence && len(tm[k][j].Path) == len(route.Path)
 //@ ensures[C09] result ==> k == ite(route.IsWildcard, lower(route.BaseDomain), lower(route.Pattern)) && tm == ite(route.IsWildcard, t.wildcardBase, t.exactRoutes)
 //@ at[C10] call (*DomainRoute).Clone#0 assert r.OriginAgent == route.OriginAgent && (route.Sequence > r.Sequence || (route.Sequence == r.Sequence && route.Metric < r.Metric))
 
 //@ func (*ForwardTable).AddRoute
-//@ prop C09 C10
+//@ prop C09 C10 C13 C15
 //@ check lockset bounds
 //@ modifies *
 //@ loop 0 invariant -1 <= rangeindex && rangeindex < len(route.Path) && forall j in 0..rangeindex+1: route.Path[j] != t.localID
@@ -161,11 +165,11 @@ package routing
 //@ loop 1 invariant -1 <= rangeindex && rangeindex < len(t.routes[route.Key])
 //@ ensures[C09,C10] result ==> k == route.Key
 //@ ensures[C09,C10] result ==> forall a in 0..len(t.routes[k]): forall b in a..len(t.routes[k]): t.routes[k][a].Metric <= t.routes[k][b].Metric
-//@ ensures[C10] result ==> exists j in 0..len(t.routes[k]): t.routes[k][j].OriginAgent == route.OriginAgent && t.routes[k][j].Metric == route.Metric && t.routes[k][j].NextHop == route.NextHop && t.routes[k][j].Sequence == route.Sequence
+//@ ensures[C10,C13,C15] result ==> exists j in 0..len(t.routes[k]): t.routes[k][j].OriginAgent == route.OriginAgent && t.routes[k][j].Metric == route.Metric && t.routes[k][j].NextHop == route.NextHop && t.routes[k][j].Sequence == route.Sequence && len(t.routes[k][j].Path) == len(route.Path)
 //@ at[C10] call (*ForwardRoute).Clone#0 assert r.OriginAgent == route.OriginAgent && (route.Sequence > r.Sequence || (route.Sequence == r.Sequence && route.Metric < r.Metric))
 
 //@ func (*AgentTable).AddRoute
-//@ prop C09 C10
+//@ prop C09 C10 C13 C15
 //@ check lockset bounds
 //@ modifies *
 //@ loop 0 invariant -1 <= rangeindex && rangeindex < len(route.Path) && forall j in 0..rangeindex+1: route.Path[j] != t.localID
@@ -174,7 +178,7 @@ package routing
 //@ loop 1 invariant -1 <= rangeindex && rangeindex < len(t.routes[route.AgentID])
 //@ ensures[C09,C10] result ==> k == route.AgentID
 //@ ensures[C09,C10] result ==> forall a in 0..len(t.routes[k]): forall b in a..len(t.routes[k]): t.routes[k][a].Metric <= t.routes[k][b].Metric
-//@ ensures[C10] result ==> exists j in 0..len(t.routes[k]): t.routes[k][j].OriginAgent == route.OriginAgent && t.routes[k][j].Metric == route.Metric && t.routes[k][j].NextHop == route.NextHop && t.routes[k][j].Sequence == route.Sequence
+//@ ensures[C10,C13,C15] result ==> exists j in 0..len(t.routes[k]): t.routes[k][j].OriginAgent == route.OriginAgent && t.routes[k][j].Metric == route.Metric && t.routes[k][j].NextHop == route.NextHop && t.routes[k][j].Sequence == route.Sequence && len(t.routes[k][j].Path) == len(route.Path)
 //@ at[C10] call (*AgentRoute).Clone#0 assert r.OriginAgent == route.OriginAgent && r.NextHop == route.NextHop && (route.Sequence > r.Sequence || (route.Sequence == r.Sequence && route.Metric < r.Metric))
 //@ note the agent-presence table keys entries by origin AND next hop (the code's rule), so several next hops for one agent coexist
 
@@ -213,3 +217,38 @@ package routing
 //@ ensures has(t.routes, agentID) && len(t.routes[agentID]) > 0 ==> result != nil && chosen == t.routes[agentID][0]
 //@ ensures !(has(t.routes, agentID) && len(t.routes[agentID]) > 0) ==> result == nil
 //@ ensures result != nil ==> result.Metric == chosen.Metric && result.NextHop == chosen.NextHop && result.AgentID == chosen.AgentID
+
+// ---- C13 / C15: what a receiver records for an advertised route ----
+// The stored route has the sender as next hop, the advertised origin and sequence, the received path
+// (the hop count handed on and checked against the hop limit) and the advertised metric plus one.
+
+//@ func (*Manager).ProcessRouteAdvertise
+//@ prop C13 C15
+//@ modifies *
+//@ loop 0 invariant -1 <= rangeindex && rangeindex < len(routes)
+//@ at call (*Table).AddRoute assert $1 != nil && $1.Metric == (routes[rangeindex + 1].Metric + 1) % 65536 && $1.Network == routes[rangeindex + 1].Network
+//@ at call (*Table).AddRoute assert $1.NextHop == fromPeer && $1.OriginAgent == originAgent && $1.Sequence == sequence && $1.Path == path
+
+//@ func ParseDomainPattern
+//@ prop C13 C15
+//@ note pure string function; the empty contract states (and the frame obligations check) that it changes no program state
+
+//@ func (*Manager).ProcessDomainRouteAdvertise
+//@ prop C13 C15
+//@ modifies *
+//@ loop 0 invariant -1 <= rangeindex && rangeindex < len(routes)
+//@ at call (*DomainTable).AddRoute assert $1 != nil && $1.Metric == (routes[rangeindex + 1].Metric + 1) % 65536 && $1.Pattern == routes[rangeindex + 1].Pattern
+//@ at call (*DomainTable).AddRoute assert $1.NextHop == fromPeer && $1.OriginAgent == originAgent && $1.Sequence == sequence && $1.Path == path
+
+//@ func (*Manager).ProcessForwardRouteAdvertise
+//@ prop C13 C15
+//@ modifies *
+//@ loop 0 invariant -1 <= rangeindex && rangeindex < len(routes)
+//@ at call (*ForwardTable).AddRoute assert $1 != nil && $1.Metric == (routes[rangeindex + 1].Metric + 1) % 65536 && $1.Key == routes[rangeindex + 1].Key
+//@ at call (*ForwardTable).AddRoute assert $1.NextHop == fromPeer && $1.OriginAgent == originAgent && $1.Sequence == sequence && $1.Path == path
+
+//@ func (*Manager).ProcessAgentRouteAdvertise
+//@ prop C13 C15
+//@ modifies *
+//@ at call (*AgentTable).AddRoute assert $1 != nil && $1.Metric == metric && $1.AgentID == agentID
+//@ at call (*AgentTable).AddRoute assert $1.NextHop == fromPeer && $1.OriginAgent == originAgent && $1.Sequence == sequence && $1.Path == path
